@@ -652,6 +652,7 @@ impl SvgElement {
         match (target_shape, self.name.as_str()) {
             // rect inside circle
             ("rect", "circle") => {
+                self.check_position_resolved()?;
                 if let Some(r) = self.attrs.get("r") {
                     let cx = self.attrs.get("cx").unwrap_or(&zstr);
                     let cy = self.attrs.get("cy").unwrap_or(&zstr);
@@ -665,6 +666,7 @@ impl SvgElement {
             }
             // rect inside ellipse
             ("rect", "ellipse") => {
+                self.check_position_resolved()?;
                 if let (Some(rx), Some(ry)) = (self.attrs.get("rx"), self.attrs.get("ry")) {
                     let cx = self.attrs.get("cx").unwrap_or(&zstr);
                     let cy = self.attrs.get("cy").unwrap_or(&zstr);
@@ -824,7 +826,7 @@ impl SvgElement {
                     || value.contains(ELREF_ID_PREFIX)
                     || value.contains(ELREF_PREVIOUS))
         }
-        Ok(match self.name.as_str() {
+        let bbox = match self.name.as_str() {
             "point" | "text" => {
                 let x = self.attrs.get("x").unwrap_or(&zstr);
                 let y = self.attrs.get("y").unwrap_or(&zstr);
@@ -943,7 +945,29 @@ impl SvgElement {
                 }
             }
             _ => None,
-        })
+        };
+        if bbox.is_some() {
+            // don't derive a bbox from default (zero) positions of an unresolved element
+            self.check_position_resolved()?;
+        }
+        Ok(bbox)
+    }
+
+    /// An element still carrying svgdx positioning attributes has been registered
+    /// but not yet resolved (e.g. it is waiting on a forward reference). Its position
+    /// is not known yet, so report its bounding box as missing; whatever refers to it
+    /// is then retried once the element has been resolved.
+    fn check_position_resolved(&self) -> Result<()> {
+        const UNRESOLVED: [&str; 14] = [
+            "xy", "cxy", "xy1", "xy2", "xy-loc", "wh", "dxy", "dwh", "dw", "dh", "start", "end",
+            "surround", "inside",
+        ];
+        if let Some(attr) = UNRESOLVED.iter().find(|a| self.has_attr(a)) {
+            return Err(SvgdxError::MissingBoundingBox(format!(
+                "{self} has unresolved '{attr}'"
+            )));
+        }
+        Ok(())
     }
 
     fn translated(&self, dx: f32, dy: f32) -> Result<Self> {
